@@ -36,6 +36,8 @@ pub struct Ctx {
     pub workers: usize,
     pub start: Instant,
     pub level: &'static str,
+    /// a case that does not finish within this many seconds is treated as a suspected hang
+    pub hang_secs: Option<u64>,
 }
 
 impl Ctx {
@@ -45,7 +47,7 @@ impl Ctx {
             .ok()
             .and_then(|s| s.parse::<usize>().ok())
             .unwrap_or_else(|| std::thread::available_parallelism().map(|n| n.get()).unwrap_or(4).min(16));
-        Ctx { prop, tier, seed, workers, start: Instant::now(), level }
+        Ctx { prop, tier, seed, workers, start: Instant::now(), level, hang_secs: None }
     }
     pub fn quick(&self) -> bool {
         self.tier == Tier::Quick
@@ -238,6 +240,7 @@ pub fn explore<C, F>(
     ctx: &Ctx,
     acc: &Accum,
     phase: &str,
+    kind: &str,
     strat: &(dyn Fn() -> BoxedStrategy<C> + Sync),
     cases_per_worker: u32,
     workers: usize,
@@ -250,10 +253,52 @@ where
     let found: Mutex<Option<Found<C>>> = Mutex::new(None);
     let t0 = Instant::now();
     let before = acc.evals();
+    let current: Vec<Mutex<Option<C>>> = (0..workers).map(|_| Mutex::new(None)).collect();
+    let beats: Vec<AtomicU64> = (0..workers).map(|_| AtomicU64::new(0)).collect();
+    let done: Vec<AtomicBool> = (0..workers).map(|_| AtomicBool::new(false)).collect();
     std::thread::scope(|s| {
+        if let Some(hang) = ctx.hang_secs {
+            let current = &current;
+            let beats = &beats;
+            let done = &done;
+            s.spawn(move || {
+                let mut last: Vec<(u64, Instant)> = beats.iter().map(|b| (b.load(Ordering::Relaxed), Instant::now())).collect();
+                loop {
+                    std::thread::sleep(std::time::Duration::from_millis(250));
+                    if done.iter().all(|d| d.load(Ordering::Relaxed)) {
+                        return;
+                    }
+                    for w in 0..beats.len() {
+                        if done[w].load(Ordering::Relaxed) {
+                            continue;
+                        }
+                        let b = beats[w].load(Ordering::Relaxed);
+                        if b != last[w].0 {
+                            last[w] = (b, Instant::now());
+                        } else if last[w].1.elapsed().as_secs() >= hang {
+                            let case = current[w].lock().unwrap().clone();
+                            if let Some(case) = case {
+                                let cv = serde_json::to_value(&case).unwrap_or(Value::Null);
+                                let fi = FailInfo {
+                                    clause: "hang".into(),
+                                    msg: format!("a case did not return within {} s (suspected hang / endless loop)", hang),
+                                    signature: "hang".into(),
+                                    detail: Value::Null,
+                                };
+                                let path = write_replay(ctx, kind, &cv, &fi);
+                                confirm_hang_and_exit(ctx, &path, hang);
+                            }
+                        }
+                    }
+                }
+            });
+        }
         for w in 0..workers {
             let found = &found;
             let run = &run;
+            let current = &current;
+            let beats = &beats;
+            let done = &done;
             let phase_tag = hash_of(&phase) % 997;
             std::thread::Builder::new()
                 .name(format!("explore-{}", w))
@@ -283,7 +328,11 @@ where
                         if acc.stop.load(Ordering::Relaxed) && !FAILED.with(|f| f.get()) {
                             return Ok(());
                         }
+                        if ctx.hang_secs.is_some() {
+                            *current[w].lock().unwrap() = Some(case.clone());
+                        }
                         let rep = run(&case);
+                        beats[w].fetch_add(1, Ordering::Relaxed);
                         let failed_already = FAILED.with(|f| f.get());
                         if !failed_already {
                             acc.record(&case, &rep);
@@ -312,6 +361,7 @@ where
                     } else if let Err(TestError::Abort(reason)) = r {
                         acc.note(format!("worker {} aborted: {}", w, reason));
                     }
+                    done[w].store(true, Ordering::Relaxed);
                 })
                 .unwrap();
         }
@@ -438,3 +488,66 @@ pub fn regress_files(prop: &str) -> Vec<String> {
 pub const EXIT_OK: i32 = 0;
 pub const EXIT_VIOLATION: i32 = 1;
 pub const EXIT_INCONCLUSIVE: i32 = 2;
+
+
+/// A worker stalled: replay the saved case in a fresh subprocess. Only a reproduced stall is a violation.
+pub fn confirm_hang_and_exit(ctx: &Ctx, path: &str, hang: u64) -> ! {
+    let exe = std::env::current_exe().unwrap();
+    println!("suspected hang, confirming {} in a fresh process", path);
+    let child = std::process::Command::new(exe)
+        .arg(ctx.prop)
+        .arg("--replay")
+        .arg(path)
+        .env("VERIF_REPLAY_TIMEOUT", format!("{}", hang * 2 + 10))
+        .stdout(std::process::Stdio::piped())
+        .spawn();
+    match child {
+        Ok(mut c) => {
+            let t0 = Instant::now();
+            loop {
+                match c.try_wait() {
+                    Ok(Some(st)) => {
+                        let mut outp = String::new();
+                        if let Some(mut o) = c.stdout.take() {
+                            use std::io::Read;
+                            let _ = o.read_to_string(&mut outp);
+                        }
+                        if st.code() == Some(EXIT_VIOLATION) {
+                            print!("{}", outp);
+                            std::process::exit(EXIT_VIOLATION);
+                        }
+                        println!("INCONCLUSIVE: a case stalled for {} s but its replay finished (exit {:?})", hang, st.code());
+                        std::process::exit(EXIT_INCONCLUSIVE);
+                    }
+                    Ok(None) => {
+                        if t0.elapsed().as_secs() > hang * 3 + 30 {
+                            let _ = c.kill();
+                            println!("the replay did not finish either");
+                            println!("VIOLATION property={} replay={}", ctx.prop, path);
+                            std::process::exit(EXIT_VIOLATION);
+                        }
+                        std::thread::sleep(std::time::Duration::from_millis(200));
+                    }
+                    Err(_) => std::process::exit(EXIT_INCONCLUSIVE),
+                }
+            }
+        }
+        Err(_) => std::process::exit(EXIT_INCONCLUSIVE),
+    }
+}
+
+/// Run `f` on its own thread; None if it does not return within `secs` (the thread is leaked).
+pub fn run_with_timeout<T: Send + 'static>(secs: u64, f: impl FnOnce() -> T + Send + 'static) -> Option<T> {
+    let (tx, rx) = std::sync::mpsc::channel();
+    std::thread::Builder::new()
+        .stack_size(16 << 20)
+        .spawn(move || {
+            let _ = tx.send(f());
+        })
+        .ok()?;
+    rx.recv_timeout(std::time::Duration::from_secs(secs)).ok()
+}
+
+pub fn replay_timeout() -> u64 {
+    std::env::var("VERIF_REPLAY_TIMEOUT").ok().and_then(|s| s.parse().ok()).unwrap_or(30)
+}
